@@ -14,6 +14,10 @@ Clauses(ev) ==
       [] ev.e = "partition" -> Tag(PartitionViol(ev.t, ev.boneLimit), ev.op)
       [] ev.e = "partassign" -> PartAssignViol(ev.s, ev.L, ev.t) \cup Tag(PartitionViol(ev.t, ev.boneLimit), "parts")
       [] ev.e = "setget" -> SetGetViol(ev.s, ev.attr, ev.given, ev.t)
+      [] ev.e = "reloadsame" -> SameAfterReloadViol(ev.t, ev.r)
+      [] ev.e = "limit" -> IF ~ev.withinLimits THEN {}
+                           ELSE V(ev.got = ev.given, "CreatedShapeReadsBackWhatWasGiven")
+                                \cup V(ev.reloaded /\ ev.r = ev.given, "ReadsBackAfterReload")
       [] ev.e = "crash" -> {"NoCrash"}
       [] OTHER -> {}
 Init == l = 1
